@@ -196,30 +196,35 @@ Inductive outcome :=
 | O_more                   (* yield(ErrInsufficientDataLen): the consumer breaks, waits for the next read *)
 | O_fatal (s : st).        (* any other error: the consumer records it and returns *)
 
-(* stageStreamData after the lexical tests succeeded *)
+(* stageStreamData after the lexical tests succeeded: the update of the file's Package.
+   dlen is the header's DataLen (= len data whenever the chunk is whole), head = historyData[:headLen] *)
+Definition pkg_add (pk : pkg) (off dlen : N) (data head : list N) : pkg :=
+  let old := match afind N.eqb off (p_data pk) with Some dt => u32 (len dt) | None => 0 end in
+  let had := match afind N.eqb off (p_data pk) with Some _ => true | None => false end in
+  let cur0 := if had then u32 (p_cur pk + 4294967296 - old) else p_cur pk in     (* a resent offset counts once *)
+  let data' := aset N.eqb off data (p_data pk) in
+  let cur' := u32 (cur0 + u32 dlen) in
+  let complete := cur' =? p_size pk in
+  {| p_size := p_size pk; p_cur := cur'; p_offset := off; p_data := data';
+     p_head := if complete then head else p_head pk;
+     p_body := if complete then flat_map snd (ksort data') else p_body pk |}.
+
+Definition after_chunk (s : st) (nm : name) (pk' : pkg) (rest : list N) : st :=
+  {| s_stage := if p_cur pk' =? p_size pk' then ST_STREAM_COMPLETE else ST_STREAM;
+     s_record := aset name_eqb nm pk' (s_record s);
+     s_cur := Some nm;
+     s_hist := rest;
+     s_recent := s_recent s; s_reply := s_reply s; s_err := s_err s;
+     h_head := h_head s; h_seq := h_seq s; h_cmd := h_cmd s; h_msg := h_msg s;
+     h_name1212 := h_name1212 s; h_miss := h_miss s |}.
+
 Definition do_chunk (s : st) (hl : N) (nm : name) (off dlen : N) : outcome :=
   let h := s_hist s in
-  let s1 := set_stage s ST_STREAM in
   match afind name_eqb nm (s_record s) with
-  | None => O_fatal s1                                      (* ErrDataInconsistency *)
+  | None => O_fatal (set_stage s ST_STREAM)                 (* ErrDataInconsistency *)
   | Some pk =>
-    let data := sub h hl (hl + dlen) in
-    let old := match afind N.eqb off (p_data pk) with Some dt => u32 (len dt) | None => 0 end in
-    let had := match afind N.eqb off (p_data pk) with Some _ => true | None => false end in
-    let cur0 := if had then u32 (p_cur pk + 4294967296 - old) else p_cur pk in
-    let data' := aset N.eqb off data (p_data pk) in
-    let cur' := u32 (cur0 + u32 dlen) in
-    let complete := cur' =? p_size pk in
-    let pk' := {| p_size := p_size pk; p_cur := cur'; p_offset := off; p_data := data';
-                  p_head := if complete then firstn (N.to_nat hl) h else p_head pk;
-                  p_body := if complete then flat_map snd (ksort data') else p_body pk |} in
-    O_ok {| s_stage := if complete then ST_STREAM_COMPLETE else ST_STREAM;
-            s_record := aset name_eqb nm pk' (s_record s);
-            s_cur := Some nm;
-            s_hist := skipn (N.to_nat (hl + dlen)) h;
-            s_recent := s_recent s; s_reply := s_reply s; s_err := s_err s;
-            h_head := h_head s; h_seq := h_seq s; h_cmd := h_cmd s; h_msg := h_msg s;
-            h_name1212 := h_name1212 s; h_miss := h_miss s |}
+    O_ok (after_chunk s nm (pkg_add pk off dlen (sub h hl (hl + dlen)) (firstn (N.to_nat hl) h))
+                      (skipn (N.to_nat (hl + dlen)) h))
   end.
 
 (* standardJT808DataHandle.OnPackageProgressEvent for 0x1210: one fresh Package per item, in list order *)
@@ -245,56 +250,78 @@ Definition reply_data (s : st) : result (list N) :=
   | _, _ => Panic
   end.
 
-(* stageJT808Data (+ the reply part of connection.run) after a whole frame was found *)
+(* handle.Parse: the handler remembers the first header ever seen, the command and the message *)
+Definition with_msg (s : st) (m : msg) : st :=
+  {| s_stage := s_stage s; s_record := s_record s; s_cur := s_cur s; s_hist := s_hist s;
+     s_recent := s_recent s; s_reply := s_reply s; s_err := s_err s;
+     h_head := match h_head s with Some x => Some x | None => Some m end;
+     h_seq := h_seq s; h_cmd := m_id m; h_msg := Some m;
+     h_name1212 := h_name1212 s; h_miss := h_miss s |}.
+
+(* what Parse + OnPackageProgressEvent decide for a decoded message: an error, or the new stage, Record,
+   CurrentPackage, T0x1212.FileName and retransmit list *)
+Inductive fdec :=
+| F_fatal
+| F_go (stage : N) (rec : list (name * pkg)) (cur : option name) (n1212 : name) (miss : list seg).
+
+Definition frame_decide (d : N) (s : st) (m : msg) : fdec :=
+  if m_id m =? ID_1210 then
+    match parse1210 d (m_body m) with
+    | Ok items => F_go ST_INIT (announce (s_record s) items) (s_cur s) (h_name1212 s) (h_miss s)
+    | _ => F_fatal
+    end
+  else if m_id m =? ID_1211 then
+    match parse1211 (m_body m) with
+    | Ok _ => F_go ST_START (s_record s) (s_cur s) (h_name1212 s) (h_miss s)
+    | _ => F_fatal
+    end
+  else if m_id m =? ID_1212 then
+    match parse1211 (m_body m) with
+    | Ok t =>
+      match afind name_eqb (f_name t) (s_record s) with
+      | Some pk =>
+        let miss := miss_segments (p_size pk) (p_cur pk) (p_recs pk) in
+        F_go (match miss with [] => ST_COMPLETE | _ => ST_SUPPL end) (s_record s) (Some (f_name t)) (f_name t) miss
+      | None => F_go ST_COMPLETE (s_record s) (s_cur s) (f_name t) (h_miss s)
+      end
+    | _ => F_fatal
+    end
+  else F_fatal.                                             (* ErrUnknownCommand *)
+
+(* RecentTerminalMessage, OnPackageProgressEvent *)
+Definition commit (s : st) (m : msg) (stage : N) (rec : list (name * pkg)) (cur : option name)
+    (n1212 : name) (miss : list seg) : st :=
+  {| s_stage := stage; s_record := rec; s_cur := cur; s_hist := s_hist s;
+     s_recent := Some m; s_reply := s_reply s; s_err := s_err s;
+     h_head := h_head s; h_seq := h_seq s; h_cmd := h_cmd s; h_msg := h_msg s;
+     h_name1212 := n1212; h_miss := miss |}.
+
+(* connection.run after yield(nil) in a stage with a reply: ReplyData, seq++, RecentPlatformData, Err *)
+Definition replied (s : st) (data : list N) : st :=
+  {| s_stage := s_stage s; s_record := s_record s; s_cur := s_cur s; s_hist := s_hist s;
+     s_recent := s_recent s; s_reply := data; s_err := false;
+     h_head := h_head s; h_seq := (h_seq s + 1) mod 65536; h_cmd := h_cmd s; h_msg := h_msg s;
+     h_name1212 := h_name1212 s; h_miss := h_miss s |}.
+
+(* stageJT808Data after Decode (+ the reply part of connection.run); s already holds the remaining history *)
+Definition frame_core (d : N) (s : st) (m : msg) : outcome :=
+  let s2 := with_msg s m in
+  match frame_decide d s2 m with
+  | F_fatal => O_fatal s2
+  | F_go stage rec cur n1212 miss =>
+    let s3 := commit s2 m stage rec cur n1212 miss in
+    if has_reply stage then
+      match reply_data s3 with
+      | Ok data => O_ok (replied s3 data)
+      | _ => O_fatal s3
+      end
+    else O_ok s3
+  end.
+
 Definition do_frame (d : N) (s : st) (index : N) : outcome :=
   let h := s_hist s in
   match decode (firstn (N.to_nat index) h) with
-  | Ok m =>
-    let s1 := set_hist s (skipn (N.to_nat index) h) in
-    (* handle.Parse *)
-    let head := match h_head s1 with Some x => Some x | None => Some m end in
-    let s2 := {| s_stage := s_stage s1; s_record := s_record s1; s_cur := s_cur s1; s_hist := s_hist s1;
-                 s_recent := s_recent s1; s_reply := s_reply s1; s_err := s_err s1;
-                 h_head := head; h_seq := h_seq s1; h_cmd := m_id m; h_msg := Some m;
-                 h_name1212 := h_name1212 s1; h_miss := h_miss s1 |} in
-    let fin (stage : N) (rec : list (name * pkg)) (cur : option name) (n1212 : name) (miss : list seg) :=
-      (* RecentTerminalMessage, OnPackageProgressEvent, then run: ReplyData, seq++ *)
-      let s3 := {| s_stage := stage; s_record := rec; s_cur := cur; s_hist := s_hist s2;
-                   s_recent := Some m; s_reply := s_reply s2; s_err := s_err s2;
-                   h_head := h_head s2; h_seq := h_seq s2; h_cmd := h_cmd s2; h_msg := h_msg s2;
-                   h_name1212 := n1212; h_miss := miss |} in
-      if has_reply stage then
-        match reply_data s3 with
-        | Ok data =>
-          O_ok {| s_stage := stage; s_record := rec; s_cur := cur; s_hist := s_hist s2;
-                  s_recent := Some m; s_reply := data; s_err := false;
-                  h_head := h_head s2; h_seq := (h_seq s2 + 1) mod 65536; h_cmd := h_cmd s2; h_msg := h_msg s2;
-                  h_name1212 := n1212; h_miss := miss |}
-        | _ => O_fatal s3
-        end
-      else O_ok s3 in
-    if m_id m =? ID_1210 then
-      match parse1210 d (m_body m) with
-      | Ok items => fin ST_INIT (announce (s_record s2) items) (s_cur s2) (h_name1212 s2) (h_miss s2)
-      | _ => O_fatal s2
-      end
-    else if m_id m =? ID_1211 then
-      match parse1211 (m_body m) with
-      | Ok _ => fin ST_START (s_record s2) (s_cur s2) (h_name1212 s2) (h_miss s2)
-      | _ => O_fatal s2
-      end
-    else if m_id m =? ID_1212 then
-      match parse1211 (m_body m) with
-      | Ok t =>
-        match afind name_eqb (f_name t) (s_record s2) with
-        | Some pk =>
-          let miss := miss_segments (p_size pk) (p_cur pk) (p_recs pk) in
-          fin (match miss with [] => ST_COMPLETE | _ => ST_SUPPL end) (s_record s2) (Some (f_name t)) (f_name t) miss
-        | None => fin ST_COMPLETE (s_record s2) (s_cur s2) (f_name t) (h_miss s2)
-        end
-      | _ => O_fatal s2
-      end
-    else O_fatal s2                                          (* ErrUnknownCommand *)
+  | Ok m => frame_core d (set_hist s (skipn (N.to_nat index) h)) m
   | _ => O_fatal s                                           (* Decode error: nothing consumed *)
   end.
 
@@ -357,6 +384,156 @@ Fixpoint run_from (d : N) (s : st) (segs : list (list N)) : list event * list N 
 
 Definition run (d : N) (segs : list (list N)) : list event * list N * st := run_from d init_st segs.
 
+(* ======================= specification side (C15) ======================= *)
+From JT.Model Require Import Unpack.
+
+(* What a terminal puts on the wire: control frames and chunks. *)
+Inductive item :=
+| I_chunk (nm : name) (off : N) (data : list N)
+| I_frame (f : list N).
+
+(* chunk header as the standards prescribe it: marker, file name (50 bytes NUL padded; HLJ: length
+   byte + name), data offset DWORD, data length DWORD *)
+Definition chunk_head (d : N) (nm : name) (off dlen : N) : list N :=
+  if d =? D_HLJ then MARKER ++ [len nm] ++ nm ++ be_enc 4 off ++ be_enc 4 dlen
+  else MARKER ++ (nm ++ repeat 0 (50 - length nm)) ++ be_enc 4 off ++ be_enc 4 dlen.
+
+Definition wire (d : N) (it : item) : list N :=
+  match it with
+  | I_chunk nm off data => chunk_head d nm off (len data) ++ data
+  | I_frame f => f
+  end.
+
+(* a name the chunk header can carry: no NUL at either end (the header is NUL padded and trimmed),
+   at most 50 bytes (HLJ: 255) *)
+Definition name_ok (d : N) (nm : name) : Prop :=
+  trim0 nm = nm /\ (if d =? D_HLJ then len nm < 256 else len nm <= 50).
+
+Definition wf_item (d : N) (it : item) : Prop :=
+  match it with
+  | I_chunk nm off data => name_ok d nm /\ off < 4294967296 /\ len data < 4294967296
+  | I_frame f => vframe f                 (* 7e, non-empty interior without 7e, 7e; accepted by Decode *)
+  end.
+
+Definition wf_itemb (d : N) (it : item) : bool :=
+  match it with
+  | I_chunk nm off data =>
+    list_eqb (trim0 nm) nm && (if d =? D_HLJ then len nm <? 256 else len nm <=? 50) &&
+    (off <? 4294967296) && (len data <? 4294967296)
+  | I_frame f => vframeb f
+  end.
+
+(* the connection seen item by item (no buffering): the states after each item, None as soon as an
+   item is not accepted *)
+Fixpoint irun (d : N) (s : st) (its : list item) : option (list st) :=
+  match its with
+  | [] => Some []
+  | it :: t =>
+    match step d (set_hist s (wire d it)) with
+    | O_ok s' => match irun d s' t with Some l => Some (s' :: l) | None => None end
+    | _ => None
+    end
+  end.
+
+(* what a state contributes to the socket: the reply of a stage that has one *)
+Definition wr (s : st) : list N := if has_reply (s_stage s) then s_reply s else [].
+
+(* an event without the count of bytes still buffered (the only observable that depends on reads) *)
+Definition strip (e : event) : event :=
+  {| e_stage := e_stage e; e_cur := e_cur e; e_hist := 0; e_err := e_err e; e_reply := e_reply e;
+     e_files := e_files e |}.
+
+Definition quit (s : st) : st := set_stage s (if s_err s then ST_FAIL_QUIT else ST_SUCCESS_QUIT).
+
+(* ---- files, splits, arrivals ---- *)
+(* the chunks (offset, data) of a file cut into the consecutive pieces ps, first piece at offset off *)
+Fixpoint pieces (off : N) (ps : list (list N)) : list (N * list N) :=
+  match ps with
+  | [] => []
+  | p :: t => (off, p) :: pieces (off + len p) t
+  end.
+
+(* split nm = the pieces file nm is sent in (every terminal-side choice of chunk sizes); the file's
+   content is their concatenation *)
+Definition content (split : name -> list (list N)) (nm : name) : list N := concat (split nm).
+Definition tiles (split : name -> list (list N)) (nm : name) : list (N * list N) := pieces 0 (split nm).
+
+Definition split_ok (split : name -> list (list N)) : Prop :=
+  forall nm, Forall (fun p => p <> []) (split nm) /\ len (content split nm) < 4294967296.
+
+(* the items a 0x1210 frame announces *)
+Definition announced (d : N) (f : list N) : list (name * N) :=
+  match decode f with
+  | Ok m => if m_id m =? ID_1210 then match parse1210 d (m_body m) with Ok l => l | _ => [] end else []
+  | _ => []
+  end.
+
+(* an upload of the files described by split: every chunk is one of the tiles of its file, every
+   announcement states the file's true size *)
+Definition item_of (d : N) (split : name -> list (list N)) (it : item) : Prop :=
+  match it with
+  | I_chunk nm off data => In (off, data) (tiles split nm)
+  | I_frame f => Forall (fun a => snd a = len (content split (fst a))) (announced d f)
+  end.
+
+(* the chunks of file nm that arrived since nm was last announced, newest first *)
+Fixpoint arrived (d : N) (nm : name) (acc : list (N * list N)) (its : list item) : list (N * list N) :=
+  match its with
+  | [] => acc
+  | I_chunk nm' off data :: t => arrived d nm (if name_eqb nm' nm then (off, data) :: acc else acc) t
+  | I_frame f :: t =>
+    arrived d nm (if existsb (fun a => name_eqb (fst a) nm) (announced d f) then [] else acc) t
+  end.
+
+(* the prescribed answer to control message m, the k-th answer on this connection; hd = the first
+   message's header: 0x8001 (serial, id, result 0) for 0x1210 / 0x1211; 0x9212 for 0x1212 *)
+Definition prescribed (hd m : msg) (k : N) (miss : list seg) : list N :=
+  if m_id m =? ID_1212 then
+    match parse1211 (m_body m) with
+    | Ok t => encode hd ID_9212 k (reply1212 t miss)
+    | _ => []
+    end
+  else encode hd ID_8001 k (be_enc 2 (m_serial m) ++ be_enc 2 (m_id m) ++ [0]).
+
+(* one prescribed answer per control frame, in order, none for a chunk; sts = the states after each
+   item; a 0x1212 is answered with the retransmit list computed at that moment (C16: exactly the
+   missing ranges) *)
+Fixpoint replies_spec (hd : msg) (k : N) (its : list item) (sts : list st) : list (list N) :=
+  match its, sts with
+  | I_chunk _ _ _ :: t, _ :: ts => replies_spec hd k t ts
+  | I_frame f :: t, s' :: ts =>
+    match decode f with
+    | Ok m => prescribed hd m (k mod 65536) (h_miss s') :: replies_spec hd (k + 1) t ts
+    | _ => []
+    end
+  | _, _ => []
+  end.
+
+Definition first_header (its : list item) : msg :=
+  match flat_map (fun it => match it with I_frame f => match decode f with Ok m => [m] | _ => [] end
+                                     | _ => [] end) its with
+  | m :: _ => m
+  | [] => empty_msg
+  end.
+
+(* a syntactic (decidable) description of an upload the server accepts: control frames 0x1210 / 0x1211 /
+   0x1212 whose bodies parse, and chunks only of files announced before them *)
+Definition ctrl_okb (d : N) (f : list N) : bool :=
+  match decode f with
+  | Ok m =>
+    if m_id m =? ID_1210 then is_ok (parse1210 d (m_body m))
+    else if (m_id m =? ID_1211) || (m_id m =? ID_1212) then is_ok (parse1211 (m_body m))
+    else false
+  | _ => false
+  end.
+
+Fixpoint upload_ok (d : N) (known : list name) (its : list item) : bool :=
+  match its with
+  | [] => true
+  | I_chunk nm _ _ :: t => existsb (name_eqb nm) known && upload_ok d known t
+  | I_frame f :: t => ctrl_okb d f && upload_ok d (map fst (announced d f) ++ known) t
+  end.
+
 (* ---------------- the default file handler at the end of the connection (file_event.go) -------- *)
 From JT.Model Require Import Paths.
 (* fileEvent.OnEvent in stage SuccessQuit: nothing without a terminal message (fix 712482c); otherwise
@@ -372,3 +549,4 @@ Definition on_quit_saves (s : st) : option (list N * list (list N * list N)) :=
     | None => None
     end
   else None.
+
